@@ -605,6 +605,7 @@ func (e *engine) runC36() {
 	e.runC36Errors()
 	e.runC36ReqDir()
 	e.runC36Call()
+	e.runC36Pure() // history independence + separator-ambiguity pairs of the pure functions (c36c.go)
 
 	// component IDs
 	vals := []string{"", "a", "svc/x", strings.Repeat("s", 200), "\xff\x00", "srv-1"}
